@@ -27,7 +27,9 @@ CONSTANTS
     Gaps,           \* gaps between runs, ms (0 = restart without gap)
     MaxSegs,        \* segments in the whole history
     MaxParts,       \* parts per segment
-    SPPs            \* video frames (audio-only: samples) per part
+    SPPs,           \* video frames (audio-only: samples) per part
+    Layouts,        \* file-name layouts of the record path: subset of {"chrono", "dayfirst", "timefirst"}
+    CrossLayouts    \* TRUE: every history with every layout; FALSE: layouts rotate over the histories
 
 FrameV == 40      \* ms between video frames
 FrameA == 30      \* ms between audio samples
@@ -162,11 +164,20 @@ VARIABLES params, done
 vars == <<params, done>>
 RECURSIVE SumSeq(_)
 SumSeq(s) == IF s = <<>> THEN 0 ELSE Head(s) + SumSeq(Tail(s))
+\* The layout of the file names is invisible in the statement (the media and the windows are
+\* instants); it is a dimension of the stimuli: the harness dates every history across a month
+\* boundary at midnight, where the order of day-first and time-first names is not the order of
+\* the instants, so that whatever walks the directory in name order is exercised out of order.
+LayoutSeq == SelectSeq(<<"chrono", "dayfirst", "timefirst">>, LAMBDA x : x \in Layouts)
+LayoutIndex(p) ==
+    SumSeq(p.segs) + Len(p.segs) + p.parts + p.spp + (IF p.gap > 0 THEN 1 ELSE 0)
+      + (IF p.tracks = "v" THEN 0 ELSE IF p.tracks = "va" THEN 1 ELSE 2)
 ParamSpace ==
     { p \in [tracks : TrackSets, segs : UNION { [1..n -> 1..MaxSegs] : n \in 1..MaxRuns },
-             gap : Gaps, parts : 1..MaxParts, spp : SPPs] :
+             gap : Gaps, parts : 1..MaxParts, spp : SPPs, layout : Layouts] :
         /\ SumSeq(p.segs) <= MaxSegs
-        /\ (Len(p.segs) = 1 => p.gap = SetMin(Gaps)) }
+        /\ (Len(p.segs) = 1 => p.gap = SetMin(Gaps))
+        /\ (CrossLayouts \/ p.layout = LayoutSeq[(LayoutIndex(p) % Len(LayoutSeq)) + 1]) }
 Init == params \in ParamSpace /\ done = FALSE
 Eval == ~done /\ done' = TRUE /\ UNCHANGED params
 Next == Eval
